@@ -7,7 +7,7 @@ import "github.com/MixinNetwork/mixin/crypto"
 // Verification hooks for property C12 (CoSi nonce bookkeeping of a chain): a bare Chain that
 // carries only the nonce maps, and exported wrappers around the unexported bookkeeping.
 
-func VerifNewNonceChain(chainId, nodeId crypto.Hash) *Chain {
+func VerifC12NewNonceChain(chainId, nodeId crypto.Hash) *Chain {
 	return &Chain{
 		node:        &Node{IdForNetwork: nodeId},
 		ChainId:     chainId,
@@ -16,10 +16,10 @@ func VerifNewNonceChain(chainId, nodeId crypto.Hash) *Chain {
 	}
 }
 
-func (chain *Chain) VerifCosiRetrieveRandom(snap, peerId crypto.Hash, challenge *crypto.Key) *crypto.CosiNonce {
+func (chain *Chain) VerifC12CosiRetrieveRandom(snap, peerId crypto.Hash, challenge *crypto.Key) *crypto.CosiNonce {
 	return chain.cosiRetrieveRandom(snap, peerId, challenge)
 }
 
-func (chain *Chain) VerifUsedRandomsOrder() []crypto.Hash {
+func (chain *Chain) VerifC12UsedRandomsOrder() []crypto.Hash {
 	return append([]crypto.Hash(nil), chain.usedRandomsOrder...)
 }
